@@ -136,7 +136,7 @@ def convexity(S, rep):
                        key="C16.e|%s" % inst, nontrivial=False)
 
 
-def factories_forward_options(S, rep):
+def factories_forward_options(S, rep, rule="C16.w"):
     """the create_* helpers hand their arguments to a simulator class: every parameter of such a helper is read (an unread
     one is an option silently dropped, e.g. the CFL number falling back to the class default), and a parameter passed by
     keyword under the name of another parameter of the helper is a transposition"""
@@ -157,14 +157,14 @@ def factories_forward_options(S, rep):
             read = {n.id for n in ast.walk(fn) if isinstance(n, ast.Name) and isinstance(n.ctx, ast.Load)}
             found += 1
             unread = [q for q in params if q not in read]
-            rep.ob("C16.w", "%s reads every one of its parameters" % fn.name, not unread,
+            rep.ob(rule, "%s reads every one of its parameters" % fn.name, not unread,
                    "parameter %s of %s is never used: the value the caller gives is dropped and %s runs with its own default" % (unread[0], fn.name, calls[0].func.id)
-                   if unread else "%d parameters, all used" % len(params), key="C16.w|factory|%s|unread|%s" % (fn.name, unread), nontrivial=False)
+                   if unread else "%d parameters, all used" % len(params), key="%s|factory|%s|unread|%s" % (rule, fn.name, unread), nontrivial=False)
             swapped = [(k.arg, k.value.id) for c in calls for k in c.keywords
                        if k.arg and isinstance(k.value, ast.Name) and k.value.id in params and k.arg in params and k.arg != k.value.id]
-            rep.ob("C16.w", "%s passes each parameter under its own name" % fn.name, not swapped,
+            rep.ob(rule, "%s passes each parameter under its own name" % fn.name, not swapped,
                    "%s receives %s=%s" % (calls[0].func.id, swapped[0][0], swapped[0][1]) if swapped else "keywords and values agree",
-                   key="C16.w|factory|%s|swapped|%s" % (fn.name, swapped), nontrivial=False)
+                   key="%s|factory|%s|swapped|%s" % (rule, fn.name, swapped), nontrivial=False)
     if found < 2:
         raise Unsupported("expected the create_unbounded_flow_simulator_2d/3d helpers, found %d factory functions" % found)
 
